@@ -558,6 +558,8 @@ def c17_cancel(rng, count):
     """the proxy's context is cancelled after each step of base scenarios with peers in every role"""
     bases = []
     for role in ROLES + ['none']:
+        if role == 'wfaildeaf':
+            continue      # a Read that ignores its context outlives the cancellation by construction: not the proxy's doing
         ids = Ids()
         if role == 'none':
             dial, att, flt = {'d': 'ok'}, [], []
